@@ -311,6 +311,24 @@ pub fn run_c16(tier: Tier) -> Report {
         rep.add_transitions(24);
     });
     rep.add_states(shapes.len() as u64 * 24);
+    // dense windows at scale: every height (width) 1..=700 (thorough 1500) at a narrow and at a wide
+    // fixed width (height), so that every residue of the varying dimension modulo anything up to
+    // half the window occurs on planes of up to 10^6 samples; and sizes in general position (primes)
+    let win = if tier.thorough() { 1500 } else { 700 };
+    let mut wide: Vec<(usize, usize)> = vec![];
+    for v in 1..=win {
+        wide.extend([(24, v), (1024, v), (v, 24), (v, 1024)]);
+    }
+    wide.extend([(1009, 331), (331, 1009), (2003, 151), (151, 2003), (4099, 67), (67, 4099), (10007, 29), (29, 10007), (100003, 9), (9, 100003), (1000003, 2), (3, 1000003), (611, 433), (720, 577), (1920, 1081)]);
+    wide.par_iter().for_each(|&(w, h)| {
+        for (s, kind) in [(3u8, 0usize), (12, 4)] {
+            let data = geometry_content(kind, w, h, seed);
+            check_image(&rep, "C16", w, h, s, &data, GEOM_NAMES[kind], true);
+        }
+        rep.add_transitions(2);
+    });
+    rep.add_states(wide.len() as u64 * 2);
+    rep.extra("dense_window_and_prime_shapes", json!(wide.len()));
     rep.add_nontrivial(shapes.iter().filter(|(w, h)| *w < 10 || *h < 10).count() as u64 * 24);
     // Table J.2
     for q in 1..=31usize {
@@ -328,7 +346,7 @@ pub fn run_c16(tier: Tier) -> Report {
         rep.violation("C16/table-len", format!("table has {} entries", QUANT_TO_STRENGTH.len()), json!({"kind": "table-j2"}));
     }
     rep.set_rule(&format!(
-        "all widths 1..={maxw} x heights 0..={maxh} x strengths 1..=12 x 2 contents (noise, 0/255 extremes) + long thin extras: no panic, length preserved, equal to the edge-by-edge model; the 31 table entries against the literal Table J.2; non-trivial = image with fewer than ten rows or columns"
+        "all widths 1..={maxw} x heights 0..={maxh} x strengths 1..=12 x 2 contents (noise, 0/255 extremes) + long thin extras + every height / width 1..700 (thorough 1500) at fixed widths / heights 24 and 1024 + prime sizes up to 10^6: no panic, length preserved, equal to the edge-by-edge model; the 31 table entries against the literal Table J.2; non-trivial = image with fewer than ten rows or columns"
     ));
     rep.sample(json!({"w": 5, "h": 0, "strength": 3, "expect": "empty output, no panic"}));
     rep.sample(json!({"w": 11, "h": 1, "strength": 12, "expect": "unchanged"}));
